@@ -56,7 +56,7 @@ CLAIMED = {
             'dialogue child is scripted; virtual timeouts', '5 C12', 'run'),
     'C13': ('model_checking',
             'TLA+ model Launch: split_command_line as a character-class state machine with three quoting styles (RoundTrip checked by TLC over every argument list in the bound), PATH resolution (which) over every layout, configuration pass-through table; every TLC-enumerated case replayed on split_command_line / which() and sampled through real pty and Popen children reporting argv, exe, cwd, environ, winsize, ECHO, SIGHUP',
-            'TLC enumerates ~91k (quick) / ~4M (thorough) quoted command lines, 1,710 PATH layouts and 204 configurations with the expected result; each is an implementation test against the real code; real probe children report what they were started with',
+            'TLC enumerates ~91k (quick) / ~4M (thorough) quoted command lines, 1,710 PATH layouts and 272 configurations with the expected result; each is an implementation test against the real code; real probe children report what they were started with; LaunchHist adds lookups over a history of file-system changes (every Lookup transition of the TLC graph taken on which() in one process, sampled through real launches) and the working directory as a path resolved component by component (symlinks, .., .)',
             'probe children are the oracle for the configuration half; PopenSpawn executable lookup is subprocess\'s', '5 C13', 'launch'),
     'C15': ('model_checking',
             'TLA+ model Interact (flush pending, raw mode, two-way copy loop with escape search and filters, restore) checked by TLC over every cutting of keystrokes/output into loop iterations; every path of the TLC state graph replayed in-process on the real interact() (real inner pty child, outer pty as the user, injections placed before each select) and compared with the final state TLC computed',
@@ -134,7 +134,7 @@ def main():
              'kind_free_text': 'TLC model of the asyncio path + TLC trace validation of real awaited executions on a virtual event loop'},
             {'name': 'run', 'path': 'spec/Run.tla spec/ExpectTrace.tla harness/checks/run_check.py', 'serves_properties': ['C12'],
              'kind_free_text': 'TLC model of run() + TLC trace validation of real run() executions against scripted dialogue children'},
-            {'name': 'launch', 'path': 'spec/Launch.tla spec/MCLaunch.tla harness/checks/launch.py harness/peers/launch_probe.py', 'serves_properties': ['C13'],
+            {'name': 'launch', 'path': 'spec/Launch.tla spec/MCLaunch.tla spec/LaunchHist.tla spec/MCLaunchHist.tla harness/checks/launch.py harness/peers/launch_probe.py harness/peers/cwd_probe.sh', 'serves_properties': ['C13'],
              'kind_free_text': 'TLC-enumerated split / which / configuration cases, one implementation test per case, real probe children'},
             {'name': 'repl', 'path': 'spec/Repl.tla spec/ExpectTrace.tla harness/checks/repl.py', 'serves_properties': ['C16'],
              'kind_free_text': 'TLC model of run_command + TLC trace validation on a scripted REPL + real bash/python REPLs'},
